@@ -185,6 +185,7 @@ def run_selftest(prop: str, repo: str, mutants: List[Mutant], floor: int, jobs: 
             results.append(("twin:reformat-all", "analysis-error", str(e)))
     finally:
         shutil.rmtree(scratch, ignore_errors=True)
+    results.append(rename_locals_twin(prop, repo))
     if mutants:
         with ProcessPoolExecutor(max_workers=jobs) as ex:
             results.extend(ex.map(_one, [(prop, repo, m) for m in mutants]))
@@ -198,3 +199,74 @@ def run_selftest(prop: str, repo: str, mutants: List[Mutant], floor: int, jobs: 
         raise AnalysisError(f"checker self-test: only {len(applied)} of {len(results)} mutants could be applied "
                             f"(floor {floor}); anchors have moved")
     return summary
+
+
+# ---------------------------------------------------------------------------------------------------
+class _LocalRenamer(ast.NodeTransformer):
+    """Consistently rename every local variable of every top-level function/method (alpha-renaming)."""
+
+    def __init__(self, suffix="_r"):
+        self.suffix = suffix
+        self.stack = []
+
+    def _locals(self, fn):
+        params = {a.arg for a in fn.args.posonlyargs + fn.args.args + fn.args.kwonlyargs}
+        if fn.args.vararg:
+            params.add(fn.args.vararg.arg)
+        if fn.args.kwarg:
+            params.add(fn.args.kwarg.arg)
+        stored, glob = set(), set()
+        for n in ast.walk(fn):
+            if isinstance(n, ast.Name) and isinstance(n.ctx, (ast.Store, ast.Del)):
+                stored.add(n.id)
+            elif isinstance(n, (ast.Global, ast.Nonlocal)):
+                glob |= set(n.names)
+            elif isinstance(n, (ast.FunctionDef, ast.AsyncFunctionDef, ast.Lambda)) and n is not fn:
+                a = n.args
+                for x in a.posonlyargs + a.args + a.kwonlyargs:
+                    params.add(x.arg)  # do not rename names that are parameters of nested functions
+                if a.vararg:
+                    params.add(a.vararg.arg)
+                if a.kwarg:
+                    params.add(a.kwarg.arg)
+        return {x for x in stored - params - glob if not x.startswith("__")}
+
+    def visit_FunctionDef(self, node):
+        if self.stack:
+            self.generic_visit(node)
+            return node
+        self.stack.append(self._locals(node))
+        self.generic_visit(node)
+        self.stack.pop()
+        return node
+
+    visit_AsyncFunctionDef = visit_FunctionDef
+
+    def visit_Name(self, node):
+        if self.stack and node.id in self.stack[-1]:
+            node.id = node.id + self.suffix
+        return node
+
+
+def rename_locals_twin(prop: str, repo: str):
+    """Whole-package twin: every local variable renamed; the property's check must stay silent."""
+    scratch = make_scratch(repo)
+    try:
+        pk = os.path.join(scratch, "src/pydrobert/torch")
+        for fn in os.listdir(pk):
+            if fn.endswith(".py"):
+                p = os.path.join(pk, fn)
+                with open(p, encoding="utf-8") as f:
+                    tree = ast.parse(f.read())
+                tree = _LocalRenamer().visit(tree)
+                ast.fix_missing_locations(tree)
+                with open(p, "w", encoding="utf-8") as f:
+                    f.write(ast.unparse(tree))
+        try:
+            v, k = run_prop_on(prop, scratch)
+            return ("twin:rename-all-locals", "ok" if not v else "twin-fired",
+                    "; ".join(f"{o.rule}/{o.clause} {o.construct}" for o in v[:4]))
+        except Exception as e:
+            return ("twin:rename-all-locals", "analysis-error", f"{type(e).__name__}: {e}")
+    finally:
+        shutil.rmtree(scratch, ignore_errors=True)
